@@ -275,14 +275,23 @@ def _restart(ctx, oracle, op):
     old = d.iso
     ctx.world.new_generation()
     try:
-        d.iso, d.cur_fp = d.open_disk(disk)
+        if op.get('reuse'):
+            from .disk import SimFile as _SF
+            old.close()
+            fp = _SF(disk, 'rb')
+            old.open_fp(fp)
+            d.iso, d.cur_fp = old, fp
+            old = None
+        else:
+            d.iso, d.cur_fp = d.open_disk(disk)
     except Exception as e:  # noqa
         out = Outcome(False, e)
         ctx.event('open', False, out.etype)
         oracle.on_open_failed(ctx, out)
         return
     try:
-        old.close()
+        if old is not None:
+            old.close()
     except Exception:
         pass
     d.model.apply(op)
